@@ -111,6 +111,7 @@ def run(db, cx):
               why="otherwise unfilled (default) secondaries from the over-allocation are emitted")
 
     threshold_pairing(db, cx)
+    shell_threshold(db, cx)
 
 
 def threshold_pairing(db, cx):
@@ -204,3 +205,45 @@ def threshold_pairing(db, cx):
                                   "emitted below its own threshold (or suppressed above it), and the "
                                   "storage bound computed from the right cuts no longer covers it")
     cx.floor("cut-guarded secondary creations", n, 1)
+
+
+def shell_threshold(db, cx):
+    """C04.6: the photoelectron's energy is E - binding(shell), so a shell may only be selected
+    if its own binding energy was compared with E.  In LivermorePEInteractor::sample_subshell
+    every accumulation of a tabulated subshell cross section is guarded, inside the same loop
+    iteration, by the test of the incident energy against that shell's binding energy (binding
+    energies are not monotonic in the shell index for heavy elements, so a prefix skip does not
+    do)."""
+    from cfg import loops_of
+    BE = "F:" + C + "LivermoreSubshell::binding_energy"
+    fs = db.get(C + "LivermorePEInteractor::sample_subshell")
+    cx.require(fs, "anchor LivermorePEInteractor::sample_subshell not found")
+    n = 0
+    for f in fs:
+        loops = loops_of(f)
+        for (b, i, ev) in f.events("def"):
+            if ev.get("op") != "+=" or not any(c.endswith("GenericCalculator::operator()") for c in ev.get("calls", [])):
+                continue
+            n += 1
+            inl = [(h, body) for (h, body) in loops if b in body]
+            ok = False
+            d = "the accumulation is not inside a loop"
+            if inl:
+                h, body = min(inl, key=lambda x: len(x[1]))
+                d = "no test against this shell's binding energy inside the accumulating loop"
+                for br in body:
+                    c = f.blocks[br].get("cond")
+                    if not c or BE not in c.get("refs", []) + c.get("allrefs", []):
+                        continue
+                    if len(f.blocks[br]["succ"]) == 2 and any(
+                            f.blocks[br]["succ"][e] is not None and f.guarded_by_edge((b, i), br, e)
+                            and f.blocks[br]["succ"][e] in body for e in (0, 1)):
+                        ok = True
+                        d = "guarded by `%s` in the same iteration" % c.get("t")
+            cx.ob("C04.6-shell-threshold", "LivermorePE: a tabulated subshell cross section is accumulated "
+                  "only after this shell's binding energy was compared with the photon energy [@%s]"
+                  % short(ev["loc"]).split(":")[-1], ok, d, short(ev["loc"]),
+                  why="selecting a shell whose binding energy exceeds the photon energy gives the "
+                      "photoelectron a negative kinetic energy (and a deposit larger than the "
+                      "incident energy)")
+    cx.floor("tabulated subshell accumulations in sample_subshell", n, 1)
